@@ -314,7 +314,8 @@ Definition this_user_sub (f : fault) (s : store) (c : cache) (n : nat) (sid u : 
     let prev := ad_sub_get s u true in
     let given0 := match prev with Some r => s_given r | None => ModeUnset end in
     let given := if (given0 =? ModeUnset)%N then c_auth c else given0 in
-    let wantm := if (mw =? ModeUnset)%N then c_auth c else mw in
+    (* repaired: ownership cannot be requested by a new subscriber (modeWant &^ ModeOwner) *)
+    let wantm := if (mw =? ModeUnset)%N then c_auth c else N.ldiff mw mO in
     if negb (is_joiner given) then mk s c n1 [] (SubErr 403) else
     (* add subscription to database if missing or soft-deleted *)
     let need_create := match prev with Some r => s_deleted r | None => true end in
@@ -349,8 +350,11 @@ Definition this_user_sub (f : fault) (s : store) (c : cache) (n : nat) (sid u : 
     match chk with
     | None => mk s c n [] (SubErr 403)
     | Some (mw1, g1, owner_change) =>
+      (* repaired: un-self-ban gives given|default without O unless the user is the owner *)
       let w1 := if (mw1 =? ModeUnset)%N then
-                  (if negb (is_joiner oldw) then N.lor g1 (c_auth c) else oldw)
+                  (if negb (is_joiner oldw) then
+                     (if N.eqb (c_owner c) u then N.lor g1 (c_auth c) else N.ldiff (N.lor g1 (c_auth c)) mO)
+                   else oldw)
                 else mw1 in
       let upd := mkUpd (if (w1 =? oldw)%N then None else Some w1) (if (g1 =? oldg)%N then None else Some g1) None None None in
       let need_upd := negb ((w1 =? oldw)%N && (g1 =? oldg)%N) in
